@@ -45,9 +45,25 @@ class Raised(Exception):
         self.exc = exc
 
 
+import calendar as _calendar_mod
+import datetime as _datetime_mod
 import re as _re_mod
 
-PURE_STDLIB = {"re": _re_mod}
+# side-effect-free standard-library modules the evaluated code may call on concrete values: they are the language's primitives here,
+# exactly like int() or str.split(); nothing of the repository runs through them
+PURE_STDLIB = {"re": _re_mod, "datetime": _datetime_mod, "calendar": _calendar_mod}
+
+
+def _pure_stdlib(dotted: str) -> Any:
+    head, _, rest = dotted.partition(".")
+    if head not in PURE_STDLIB:
+        return None
+    obj = PURE_STDLIB[head]
+    for part in [x for x in rest.split(".") if x]:
+        if not hasattr(obj, part):
+            return None
+        obj = getattr(obj, part)
+    return obj
 BUILTIN_EXCEPTIONS = {"Exception", "ValueError", "TypeError", "KeyError", "NotImplementedError", "RuntimeError", "AssertionError", "IndexError", "SyntaxError", "AttributeError"}
 
 
@@ -326,8 +342,9 @@ class Interp:
             fake = FuncInfo(f"{m.name}.<module>", m, ast.parse("def _m(): pass").body[0])
             return self.eval(m.assigns[name], {}, fake)
         if name in m.imports:
-            if m.imports[name] in PURE_STDLIB:
-                return PURE_STDLIB[m.imports[name]]  # side-effect-free standard-library module used on constant patterns (re)
+            std = _pure_stdlib(m.imports[name])
+            if std is not None:
+                return std  # side-effect-free standard-library module / class (re, datetime, calendar)
             tgt = self.P.canonical(m.imports[name])
             return self.qualified(tgt, f)
         if name in self.externals:
@@ -522,6 +539,14 @@ class Interp:
                 return a * b
             if isinstance(op, ast.Div):
                 return a / b
+            if isinstance(op, ast.FloorDiv):
+                return a // b
+            if isinstance(op, ast.Mod):
+                return a % b
+            if isinstance(op, ast.Pow) and isinstance(a, (int, float)) and isinstance(b, (int, float)) and abs(b) < 64:
+                return a ** b
+        except ZeroDivisionError:
+            raise Raised(ExcVal("ZeroDivisionError", None, {"expr": src(e)}, getattr(e, "lineno", 0)))
         except TypeError:
             pass
         raise Unmodelled(f"binary operation {src(e)}")
@@ -557,8 +582,8 @@ class Interp:
                     return ("boundmethod", mm, base)
         if base in (set, frozenset, dict, list, tuple, str) and e.attr in ("intersection", "union", "difference", "fromkeys", "join"):
             return getattr(base, e.attr)
-        if not isinstance(base, (ClassVal, ExternalObj, ExcVal, ModuleInfo, FuncInfo, dict, list, tuple, set, str, int, float, bool, type(None))) \
-                and hasattr(base, e.attr):
+        if (type(base) not in (dict, list, tuple, set, str, int, float, bool, type(None)) and
+                not isinstance(base, (ClassVal, ExternalObj, ExcVal, ModuleInfo, FuncInfo))) and hasattr(base, e.attr):
             return getattr(base, e.attr)  # object handed in by the check through `externals`
         if isinstance(base, ExcVal) and e.attr == "args":
             return (base.kwargs.get("message", ""), base.code)
